@@ -253,4 +253,23 @@ def cases(tier):
                     deadline_s=1200,
                 )
             )
+    # the other half of "recorded at the requested times": every requested time (an observable's own or the
+    # config default, also when both kinds are mixed in one configuration) is a grid time the matching finds.
+    # Decided by C21's harness on the real _get_target_times/_unique_observable_times (F-abs); shared here.
+    from harness.c21 import grid_props, COVERS as COVERS_GRID
+
+    for ne, ni, dflt in ([(1, 1, True), (2, 1, "mixed")] if tier == "quick" else [(1, 1, False), (1, 1, True), (2, 1, "mixed"), (1, 1, "mixed")]):
+        out.append(
+            Case(
+                f"requested_times_on_grid_evals{ne}{'_mixed' if dflt == 'mixed' else '_default' if dflt else '_own'}",
+                grid_props(ne, ni, dflt),
+                covers=COVERS_GRID,
+                bounds={"evaluation_times": ne, "times given by": "own + default mixed" if dflt == "mixed" else "config default" if dflt else "observable", "duration": "1..10000 (integer)", "dt": "0.1..10000"},
+                canaries=["end_short"],
+                timeout_ms=60000,
+                deadline_s=1500,
+                conc_samples=3,
+                weight=30,
+            )
+        )
     return out
